@@ -70,7 +70,7 @@ class Contract:
                  raises=None, modifies=None, effects=(), loops=None, locals=None, inline=False, funcs=None,
                  ghost=None, mode="prove", unroll=None, comps=None, name=None, setup=(), max_paths=None,
                  frame=None, lock=None, replay=None, timeout_ms=None, axioms=(), post_setup=(), pure_result=None, asserts=None, nonlinear=False, unreachable_ok=(),
-                 fs_inv=(), fs_policy=(), fs_opts=None, call_pre=None, witnesses=None):
+                 fs_inv=(), fs_policy=(), fs_opts=None, call_pre=None, witnesses=None, abstract_str_order=False):
         self.key = key
         self.prop = prop if isinstance(prop, (list, tuple)) else [prop]
         self.short = name or key.split(":", 1)[1]
@@ -114,6 +114,7 @@ class Contract:
         # witnesses = {binder: ["lambda j: <spec expr over the function's locals>", ...]}: candidate witnesses for
         # `exists_fn(binder, ...)` clauses of this contract (only used when the clause is *proved*)
         self.witnesses = dict(witnesses or {})
+        self.abstract_str_order = abstract_str_order
         self.unreachable_ok = list(unreachable_ok)
         self.pure_result = pure_result
         if pure_result is not None:
@@ -170,6 +171,13 @@ class Registry:
 
     def dictrec(self, name, fields):
         t = TDictRec(fields)
+        self.types.declare(name, t)
+        return t
+
+    def mutrec(self, name, fields):
+        """mutable dict-shaped record with fixed string keys that lives *by value* inside maps / lists
+        (e.g. the edge records of the GEL store); see values.TMutRec"""
+        t = TMutRec(name, {k: self.types.parse(v) for k, v in fields.items()})
         self.types.declare(name, t)
         return t
 
@@ -284,6 +292,7 @@ class Verifier:
         self.no_if_conversion = bool(os.environ.get("PYVC_NO_IFCONV"))
         self.no_patterns = bool(os.environ.get("PYVC_NO_PATTERNS"))
         self.nonlinear = bool(os.environ.get("PYVC_NONLINEAR"))
+        self.abstract_str_order = False
         self.feas_timeout_ms = 400
         self.solver_s = 0.0
         self.queries = 0
@@ -831,6 +840,7 @@ class Verifier:
         saved_to = self.timeout_ms
         saved_nl = self.nonlinear
         self.nonlinear = self.nonlinear or c.nonlinear
+        self.abstract_str_order = bool(getattr(c, 'abstract_str_order', False))
         if c.timeout_ms:
             self.timeout_ms = c.timeout_ms
         mod, cls, node = frontend.find_function(c.key, self.repo)
@@ -853,6 +863,7 @@ class Verifier:
         finally:
             self.timeout_ms = saved_to
             self.nonlinear = saved_nl
+            self.abstract_str_order = False
         if self.exits == 0 and not self.errors:
             self.errors.append("vacuous: no path reaches a function exit (contradictory requires?)")
         # reachability guard against vacuous proofs: every statement of the function must be executed on some path
